@@ -6,8 +6,17 @@ PRODUCTS = {'OpenSSH': 'OpenSSH', 'Dropbear SSH': 'Dropbear SSH', 'libssh': 'lib
 VERSIONED_PRODUCTS = ('OpenSSH', 'Dropbear SSH', 'libssh', 'TinySSH')
 
 
+def _int(x):
+    """int(x) for a digit string of any length (the interpreter refuses to convert more than 4300 digits at once)"""
+    n = 0
+    for i in range(0, len(x), 4000):
+        part = x[i:i + 4000]
+        n = n * 10 ** len(part) + int(part)
+    return n
+
+
 def vtuple(v):
-    return tuple(int(x) for x in v.split('.'))
+    return tuple(_int(x) for x in v.split('.'))
 
 
 def vcmp(a, b):
